@@ -5,7 +5,8 @@ steps with reflecting boundaries against exact binomial tail bounds at a total f
 1e-9 per run; depth-varying LaBolle profiles inside the stability bound against the repository's own
 10-bin criterion; displacement variance 2·K·dt for interior particles.  Correspondence: the LaBolle
 scheme, `diffuse_const` and the boundary treatment are pinned bit-exactly by C05's chemicals cases
-(re-run here on the mixing configurations) and `ladis` by draw replay."""
+(re-run here on the mixing configurations) and `ladis` by draw replay.  The transport histories (several updates of one
+IBM object) are implementation-side oracles only: the driver has no operation for an IBM object with memory."""
 import math
 import os
 import numpy as np
@@ -37,6 +38,21 @@ RULE = ("uniformity: N particles on a stratified grid over [0,H], 1..3 steps wit
         "increments (level 1e-9/4000 per test); LaBolle constant-K uniformity with such sub-steps, coarse sampling and "
         "cap >= K (binomial bound); sedimentation ladis on intervals [t0, t1] with t0 = 0 / != 0, lengths 0.5..600 s, "
         "constant or layer-wise constant K, constant velocity, flat or column array: chi-square bound on 2*K*(t1-t0). "
+        "Transport histories (every run): 2..4 updates of ONE IBM instance, N particles well mixed over their local column "
+        "(relative depth Z/H on a shuffled stratified grid); between updates the tracker moves all / a random half / none "
+        "of them to deeper or shallower water following the terrain (Z/H kept), re-scatters them, leaves 30 % exactly in "
+        "place, or replaces a third by new releases (same count); terrain = five flat terraces h..2.5h (h 2.5..40 m, 40 "
+        "cells wide) or, where the module does not move particles horizontally itself, a sloping bed; chemicals: EVERY "
+        "land_collision (absent / reposition / freeze / coastal_diffusion on a chequerboard coast) x horzdiff_type (absent / "
+        "smagorinsky, horzdiff_min/max) pair, mixing a number or a forcing variable (sub-step classes, vertdiff_dz, cap >= "
+        "K), step amplitude 0.15..0.8 of the shallowest column, vertical_advection absent / on / off with w = 0, lifespan, "
+        "stub or real LADiM State, the first transition of the first history of every pair to another depth; sedimentation "
+        "IBM (constant mixing, statuses 1 and 2, two basins, critical stress forms, currents), sand eel larvae (max_depth "
+        "below every bed / between bed depths), eel (band; moon up = swims itself / down): normal increments with sigma <= "
+        "1/8 column. After EVERY update: every particle inside its column at its CURRENT place (harness terrain function), "
+        "Z/H uniform on 10 bins (binomial bound, same budget), < 3 particles within 1e-11 column depths of surface or bed "
+        "(false alarm < 1e-16; not sedimentation, which sinks). Mine: variance 2*K*dt (chi-square bound) of the last update "
+        "of such a history over 2000..7500 m terraces, land_collision absent / reposition / freeze, with / without `active`. "
         "Non-trivial: every statistical experiment; distinct by (module, parameters).")
 ASSUMPTIONS = ["np.random.rand / randn / normal are uniform / standard normal (numpy legacy generator, trusted)",
                "measure-theoretic step 'piecewise isometry with constant preimage count => uniform law invariant' is cited, not formalised"]
@@ -86,8 +102,10 @@ def const_uniformity(ctx):
         ctx.case(key=("uni", "chemicals", H, D, dt, steps), nontrivial=True, sample=params if rep == 0 else None)
         ctx.branch("uniformity.chemicals_const")
         uniform_test(ctx, "chemicals_const", st.Z, H, "ladim_plugins/chemicals/ibm.py", params)
-        # sedimentation constant mixing (normal draws; |d| < H for 7 sigma: sigma = frac*H/7 ... use frac*H/4, tail mass negligible but reflections handle up to 2H)
-        sig = frac * H / 4
+        # sedimentation constant mixing (normal draws): sigma = frac*H/8 <= H/10, so a displacement beyond one water depth
+        # (which two reflections cannot bring back: the property's proviso) is a >= 10-sigma event, probability < 1e-22 per
+        # particle-step (with frac*H/4 it was 5 sigma, i.e. ~1e-3 per run: a false-alarm source found by the r6 review)
+        sig = frac * H / 8
         value = sig ** 2 / (2 * dt)
         fn = ibmrun.mod("sedimentation").get_vdiff_fn(value)
         z = strat(N, 0, H)
@@ -275,7 +293,7 @@ def chi2_variance_ok(ctx, label, disp, expected, site, params):
     """displacements that are normal with variance `expected` (all modules here draw randn / normal): (n-1) s^2 /
     expected is chi-square with n-1 degrees of freedom EXACTLY, so the two-sided test at level ALPHA_TOTAL / MAX_TESTS
     has an exact false-alarm probability; it shares the Bonferroni budget of the binomial tests (the run makes far
-    fewer than MAX_TESTS statistical tests: < 1500 in the thorough tier)."""
+    fewer than MAX_TESTS statistical tests: about 2100 in the thorough tier, transport histories included)."""
     from scipy.stats import chi2
     n = len(disp)
     var = float(np.var(disp, ddof=1))
@@ -489,7 +507,7 @@ def flag_uniformity(ctx):
     for rep in range(ctx.n(3, 8)):
         rng = ctx.rng
         H = rng.choice([10.0, 40.0, 2.5]); frac = rng.choice([0.15, 0.4, 0.8]); steps = rng.choice([1, 2, 3]); dt = rng.choice([60.0, 600.0])
-        sig = frac * H / 4
+        sig = frac * H / 8          # >= 10 sigma to leave the column by more than one water depth (see const_uniformity)
         value = sig ** 2 / (2 * dt)
         carrier = rng.choice(["float", "int", "bool"])
         tform = rng.choice(["absent", "number", "dict"])
@@ -850,6 +868,528 @@ def substeps(ctx):
     ladis_step_lengths(ctx)
 
 
+# =====================================================================================================================
+# Transport histories: what the IBM OBJECT keeps between updates
+#
+# The property speaks about "vertical mixing steps" applied to a tracer that is uniform over the water column - every
+# step of a run, not only the first one an IBM object makes.  In a run ONE IBM instance is updated again and again and
+# between two updates the tracker carries the particles horizontally, to other water depths; particles die / are
+# released (the State compacts and appends its arrays).  Whatever the module keeps on `self` between updates (stored
+# positions of the land-collision treatment, lazily evaluated fields, ...), the reflecting bed of an update is the bed
+# at the place where the particle IS in that update.
+#
+# Histories below: a cloud that is uniform over the local column [0, H(x, y)] (relative depth Z/H on a stratified
+# grid), 2..4 updates of ONE instance; between updates the tracker (played by the harness) moves the particles
+# horizontally - all / a random half / none of them - to deeper or shallower water FOLLOWING THE TERRAIN (Z/H is
+# kept, so the cloud is still exactly uniform over the new column when the next update starts), re-scatters them at
+# the same depth, leaves a part where it was, or replaces a part of the cloud by newly released particles (same
+# particle count, other particles).  Terrain: flat terraces of different depths (40 cells wide, particles stay > 1 cell
+# from the edges: horizontal moves the module makes ITSELF - Smagorinsky diffusion, re-seeding within the cell - never
+# change the depth), or a sloping bed when the module does not move particles horizontally.  Chemicals: EVERY
+# land_collision option (absent = reposition / reposition / freeze / coastal_diffusion) x horzdiff_type (absent /
+# smagorinsky) in every run.  After EVERY update: every particle inside its local column and the relative depth Z/H
+# uniform on 10 bins (exact: each (sub-)step is a symmetric shift of amplitude < H followed by the two reflections, a
+# measure-preserving map of [0, H] for every single particle, so Z/H is uniform on [0, 1] for every particle whatever
+# its H; bound: Poisson-binomial counts, binomial tail bound, same Bonferroni budget as the other tests).
+# The depth used by the oracle is the harness's own terrain function at the particle's CURRENT position.
+# Neighbours with a bed-dependent or position-independent second boundary: sedimentation IBM (constant mixing), sand eel
+# (bed or max_depth, whichever is shallower), eel (fixed band; swims horizontally itself when the moon is up);
+# mine (one reflecting boundary): displacement variance of interior particles in the last update of such a history.
+# =====================================================================================================================
+
+TERRACE_W = 40.0          # width of a terrace [grid cells]
+TERRACE_N = 5
+
+
+class Terrain:
+    """kind 'terraces': depth depths[floor(x / 40)] (flat terraces side by side along x);
+    kind 'slope': depth h0 + hx * x"""
+
+    def __init__(self, kind, depths=None, h0=0.0, hx=0.0):
+        self.kind, self.depths, self.h0, self.hx = kind, (None if depths is None else np.array(depths, float)), h0, hx
+
+    def band(self, x):
+        return np.clip(np.floor(np.asarray(x, float) / TERRACE_W).astype(int), 0, TERRACE_N - 1)
+
+    def depth(self, x, y):
+        x = np.asarray(x, float)
+        if self.kind == "terraces":
+            return self.depths[self.band(x)]
+        return self.h0 + self.hx * x
+
+    def hmin(self):
+        return float(self.depths.min()) if self.kind == "terraces" else float(self.h0)          # hx >= 0, x >= 0
+
+    def edge_distance(self, x):
+        """distance [cells] to the nearest terrace edge"""
+        r = np.asarray(x, float) % TERRACE_W
+        return np.minimum(r, TERRACE_W - r)
+
+    def describe(self):
+        return dict(kind=self.kind, depths=self.depths.tolist()) if self.kind == "terraces" else dict(kind=self.kind, h0=self.h0, hx=self.hx)
+
+
+def pick_terraces(rng, pool):
+    """five different depths between h and 2.5 h, in random order along x (h from `pool`): the amplitude of a mixing step,
+    a fraction of the SHALLOWEST column, is a visible fraction of every column"""
+    h = rng.choice(pool)
+    d = [h * f for f in rng.sample([1.0, 1.15, 1.4, 1.6, 2.0, 2.5], TERRACE_N)]
+    return Terrain("terraces", depths=d)
+
+
+class Cloud:
+    """the particle arrays of a run, in a stub state of the repository's unit tests ('stub') or in the real LADiM State
+    ('real'); the tracker's side of the interface: read, assign new arrays, remove and append particles"""
+
+    def __init__(self, carrier, dt, arrays, scalars=None):
+        self.carrier = carrier
+        n = len(arrays["X"])
+        self.next_pid = n
+        if carrier == "real":
+            self.st = real_state(dt=dt, **dict(scalars or {}), **{k: np.array(v) for k, v in arrays.items()})
+        else:
+            self.st = NumState(pid=np.arange(n), alive=np.ones(n, bool), dt=dt, **dict(dict(timestep=0), **(scalars or {})),
+                               **{k: np.array(v) for k, v in arrays.items()})
+
+    def get(self, k):
+        return np.array(self.st[k])
+
+    def set(self, k, v):
+        self.st[k] = np.array(v)
+
+    def replace(self, drop, new):
+        """remove the particles flagged in `drop` and append the particles `new` (dict of arrays; variables not given: 0)"""
+        m = len(new["X"])
+        if self.carrier == "real":
+            self.st.remove(drop)
+            self.st.append({k: np.array(v) for k, v in new.items()})
+        else:
+            d = self.st.__dict__["_d"]
+            keep = ~drop
+            for k in list(d):
+                v = d[k]
+                if isinstance(v, np.ndarray) and v.shape == drop.shape:
+                    if k == "pid":
+                        add = np.arange(self.next_pid, self.next_pid + m)
+                    elif k == "alive":
+                        add = np.ones(m, bool)
+                    elif k in new:
+                        add = np.array(new[k]).astype(v.dtype)
+                    else:
+                        add = np.zeros(m, v.dtype)
+                    d[k] = np.concatenate([v[keep], add])
+        self.next_pid += m
+
+
+TRANSPORTS = ["deeper", "shallower", "split", "scatter", "partly_stay", "turnover", "other_depth"]
+
+
+def transport(cloud, terrain, kind, rs, extra_new=None, col=None):
+    """the tracker between two updates.  `col(x, y)` = depth of the column the tracer occupies (default: the water depth);
+    terrain-following: Z/col is kept.  Returns a description for the failing-input record."""
+    col = col or terrain.depth
+    X, Y, Z = cloud.get("X"), cloud.get("Y"), cloud.get("Z")
+    n = len(X)
+    Ho = col(X, Y)
+    info = dict(kind=kind)
+    if terrain.kind == "slope":
+        # common shift, per-particle shift, or none for a part; x stays inside [5, 195]
+        if kind in ("deeper", "shallower", "other_depth"):
+            d = rs.uniform(10.0, 60.0) * (1 if kind != "shallower" else -1)
+            dx = np.full(n, d)
+        elif kind == "partly_stay":
+            dx = np.where(rs.uniform(size=n) < 0.3, 0.0, rs.uniform(-30.0, 30.0, n))
+        else:
+            dx = rs.uniform(-40.0, 40.0, n)
+        Xn = X + dx
+        Xn = np.where((Xn < 5.0) | (Xn > 195.0), X - dx, Xn)
+        Xn = np.clip(Xn, 5.0, 195.0)
+        Yn = Y + (rs.uniform(-1.0, 1.0, n) if kind != "partly_stay" else np.where(dx == 0.0, 0.0, 0.5))
+        info["shift"] = [float(dx.min()), float(dx.max())]
+    else:
+        b = terrain.band(X)
+        order = np.argsort(terrain.depths)                   # bands from the shallowest to the deepest
+        rank = np.empty(TERRACE_N, int); rank[order] = np.arange(TERRACE_N)
+        r = rank[b]
+        if kind == "deeper":
+            tr = np.minimum(r + rs.randint(1, 3), TERRACE_N - 1)
+            tr = np.where(tr == r, r - 1, tr)
+        elif kind == "shallower":
+            tr = np.maximum(r - rs.randint(1, 3), 0)
+            tr = np.where(tr == r, r + 1, tr)
+        elif kind == "split":
+            # a random half to deeper, the other half to shallower water (at the ends: the only direction there is)
+            up = rs.uniform(size=n) < 0.5
+            tr = np.where(up, r + 1, r - 1)
+            tr = np.where(tr < 0, 1, np.where(tr > TERRACE_N - 1, TERRACE_N - 2, tr))
+        elif kind == "other_depth":
+            tr = (r + rs.randint(1, TERRACE_N, n)) % TERRACE_N       # every particle to some other terrace
+        else:
+            tr = r
+        tb = order[tr]
+        Xn = X + TERRACE_W * (tb - b)
+        Yn = Y.copy()
+        if kind == "scatter":
+            Xn = Xn + rs.uniform(-1.0, 1.0, n); Yn = Yn + rs.uniform(-1.0, 1.0, n)
+        elif kind == "partly_stay":
+            mv = rs.uniform(size=n) >= 0.3                       # 30 % are exactly where the last update left them
+            Xn = np.where(mv, Xn + rs.uniform(-1.0, 1.0, n), Xn); Yn = np.where(mv, Yn + rs.uniform(-1.0, 1.0, n), Yn)
+        elif kind != "turnover":
+            Xn = Xn + rs.uniform(-0.5, 0.5); Yn = Yn + rs.uniform(-0.5, 0.5)   # the same drift for all
+        info["bands"] = sorted(set(tb.tolist()))
+    Hn = col(Xn, Yn)
+    # terrain-following: relative depth kept.  (Z/Ho)*Hn <= Hn in floating point too (Z <= Ho, rounding is monotone)
+    Zn = (Z / Ho) * Hn
+    cloud.set("X", Xn); cloud.set("Y", Yn); cloud.set("Z", Zn)
+    if kind == "turnover":
+        # a random third of the cloud leaves the simulation, as many particles are released, well mixed over the column
+        # of one place: the particle COUNT is the same, the particles behind the array positions are not
+        drop = rs.uniform(size=n) < 1.0 / 3
+        m = int(drop.sum())
+        if terrain.kind == "slope":
+            xr = np.full(m, rs.uniform(20.0, 180.0)) + rs.uniform(-3.0, 3.0, m)
+        else:
+            xr = TERRACE_W * rs.randint(0, TERRACE_N) + TERRACE_W / 2 + rs.uniform(-4.0, 4.0, m)
+        yr = rs.uniform(6.0, 14.0, m)
+        new = dict(X=xr, Y=yr, Z=rs.uniform(0.0, 1.0, m) * col(xr, yr))
+        if extra_new:
+            new.update({k: np.full(m, v) for k, v in extra_new.items()})
+        cloud.replace(drop, new)
+        info["replaced"] = m
+    return info
+
+
+def relative_uniform_test(ctx, label, cloud, col, site, params, lo=None, boundary_layer=True):
+    """every (living) particle inside its column [lo, col(x, y)] at its CURRENT place, relative depth uniform on 10 bins"""
+    X, Y, Z = cloud.get("X"), cloud.get("Y"), cloud.get("Z")
+    alive = cloud.get("alive").astype(bool)
+    X, Y, Z = X[alive], Y[alive], Z[alive]
+    H = col(X, Y)
+    L = np.zeros_like(H) if lo is None else np.zeros_like(H) + lo
+    inside = (Z >= L) & (Z <= H)
+    n = len(Z)
+    bad = np.flatnonzero(~inside)
+    ctx.oracle(len(bad) == 0, "C20.%s.left_column" % label, site,
+               "%d of %d particles outside their local water column, e.g. Z = %r where the column is [%r, %r] (X = %r)"
+               % (len(bad), n, *((float(Z[bad[0]]), float(L[bad[0]]), float(H[bad[0]]), float(X[bad[0]])) if len(bad) else (0, 0, 0, 0))),
+               params)
+    s = (Z - L) / (H - L)
+    # no point mass AT a boundary: the layers within 1e-11 column depths of the surface and of the bed (>= 1000 ulp of
+    # Z) together hold a fraction 2e-11 of a well-mixed tracer; three or more of n <= 4e5 particles there has
+    # probability < (n * 2e-11)^3 / 6 < 1e-16 (binomial tail; negligible against the Bonferroni budget ALPHA_TOTAL).
+    # Not for the sedimentation module: its sinking velocity cannot be switched off, so it lays particles on the bed.
+    if boundary_layer:
+        eps = 1e-11
+        k = int(np.count_nonzero(inside & ((s <= eps) | (s >= 1 - eps))))
+        ctx.oracle(k < 3, "C20.%s.boundary_layer" % label, site,
+                   "%d of %d particles within 1e-11 column depths of the surface or the bed (a well-mixed tracer has %.1e there)"
+                   % (k, n, n * 2 * eps), dict(params, at_surface=int(np.count_nonzero(inside & (s <= eps))),
+                                               at_bed=int(np.count_nonzero(inside & (s >= 1 - eps)))))
+    cnt = np.histogram(s, bins=np.linspace(0, 1, 11))[0]
+    for b in range(10):
+        ctx.oracle(binom_ok(int(cnt[b]), n, 0.1), "C20.%s.uniformity" % label, site,
+                   "relative depth bin %d (%.1f..%.1f of the local column) holds %d of %d particles (expected %.0f +- %.0f)"
+                   % (b, b / 10, (b + 1) / 10, cnt[b], n, n * 0.1, math.sqrt(n * 0.09)),
+                   dict(params, counts=cnt.tolist()))
+
+
+LAND_OPTIONS = ["absent", "reposition", "freeze", "coastal_diffusion"]
+HORZ_OPTIONS = ["absent", "smagorinsky"]
+
+
+def chem_transport_history(ctx, land, horz, rep):
+    rng = ctx.rng
+    site = "ladim_plugins/chemicals/ibm.py"
+    N = ctx.n(20000, 100000)
+    dt = rng.choice([60.0, 600.0, 100])
+    nupd = rng.choice([2, 3, 3, 4])
+    moves_itself = horz == "smagorinsky" or land == "coastal_diffusion"
+    # a sloping bed only where the module does not move particles horizontally itself (re-seeding of `reposition`
+    # concerns particles the tracker left where they were: none on the slope)
+    slope = (not moves_itself) and rng.random() < 0.3
+    if slope:
+        h0 = rng.choice([5.0, 12.0, 40.0])
+        terrain = Terrain("slope", h0=h0, hx=rng.choice([0.02, 0.1, 0.5]) * h0 / 10)
+    else:
+        terrain = pick_terraces(rng, [2.5, 10.0, 14.0, 40.0])
+    frac = rng.choice([0.15, 0.4, 0.8])
+    amp = frac * terrain.hmin()                                  # amplitude of the longest (sub-)step < the shallowest column
+    mixing = rng.choice(["number", "forcing"])
+    conf = dict()
+    if land != "absent":
+        conf["land_collision"] = land
+    if horz != "absent":
+        conf["horzdiff_type"] = horz
+        if rng.random() < 0.5:
+            conf["horzdiff_max"] = rng.choice([0.5, 5.0])
+        if rng.random() < 0.5:
+            conf["horzdiff_min"] = rng.choice([0.05, 0.3])
+    adv = rng.choice(["absent", True, False])                    # the vertical velocity of this water is 0
+    if adv != "absent":
+        conf["vertical_advection"] = adv
+    if rng.random() < 0.3:
+        conf["lifespan"] = 1e12
+    cls = "default"
+    if mixing == "number":
+        K = amp ** 2 / (6 * dt)
+        conf["vertical_mixing"] = K
+    else:
+        cls = rng.choice(["default", "equal", "dividing", "nondividing", "larger"])
+        vdt, _m = pick_substep(ctx, cls, 1, dt)
+        K = amp ** 2 / (6 * min(float(dt), float(dt if vdt is None else vdt)))
+        conf["vertical_mixing"] = rng.choice(["AKs", "vertdiff"])
+        if vdt is not None:
+            conf["vertdiff_dt"] = vdt
+        if rng.random() < 0.4:
+            conf["vertdiff_dz"] = rng.choice([0.1, 1.0])
+        if rng.random() < 0.4:
+            conf["vertdiff_max"] = K * rng.choice([1.0, 2.0])    # not below K: the coefficient in force is K
+    A = rng.choice([0.2, 1.0])                                   # horizontal diffusivity [m2/s]; metric 200 m
+    # reach of the module's own horizontal moves per update: sqrt(2A)*sqrt(3dt)/200 <= 0.3 cells (Smagorinsky) + 1 cell
+    # (re-seeding within the cell round(X) +- 0.5) + 1 cell (the tracker's scatter); start within 5 cells of a terrace
+    # centre: after 4 updates still > 1 cell from the edges (checked below)
+    coastal = lambda x, y: (np.round(np.asarray(x, float)) + np.round(np.asarray(y, float))) % 2 == 0   # chequerboard
+    g = Obj(sample_depth=terrain.depth, sample_metric=lambda x, y: (np.zeros(len(x)) + 200.0, np.zeros(len(x)) + 200.0),
+            ingrid=lambda x, y: np.ones(len(x), bool), is_close_to_land=coastal)
+    g.grid = g
+    name = conf["vertical_mixing"]
+    forcing = Obj(forcing=Obj(wvel=lambda x, y, z, *a, **k: np.zeros_like(np.asarray(z, float)),
+                              vertdiff=lambda x, y, z, nm: np.zeros_like(np.asarray(z, float)) + K,
+                              horzdiff=lambda x, y, z: np.zeros_like(np.asarray(z, float)) + A))
+    rs = np.random.RandomState(ctx.sub_seed())
+    if slope:
+        x0 = rs.uniform(20.0, 180.0) + rs.uniform(-5.0, 5.0, N)
+    else:
+        x0 = TERRACE_W * rng.randrange(TERRACE_N) + TERRACE_W / 2 + rs.uniform(-5.0, 5.0, N)
+    y0 = rs.uniform(5.0, 15.0, N)
+    carrier = rng.choice(["stub", "real"])
+    cloud = Cloud(carrier, dt, dict(X=x0, Y=y0, Z=strat(N, 0.0, 1.0)[rs.permutation(N)] * terrain.depth(x0, y0), age=np.zeros(N)))
+    import logging
+    logging.disable(logging.WARNING)
+    try:
+        ibm = ibmrun.mod("chemicals").IBM(dict(dt=dt, ibm=conf))
+    finally:
+        logging.disable(logging.NOTSET)
+    history = []
+    params = dict(module="chemicals", dt=dt, ibm=dict(conf), K=K, N=N, state=carrier, terrain=terrain.describe(),
+                  amplitude_longest_substep=amp, horizontal_diffusivity=A, substep_class=cls, history=history)
+    ctx.case(key=("transport", "chemicals", land, horz, dt, repr(sorted(conf.items(), key=str)), repr(terrain.describe()), nupd, carrier),
+             nontrivial=True, sample=params if (land, horz, rep) == ("freeze", "smagorinsky", 0) else None)
+    ctx.branch("transport.chemicals.land_%s.horzdiff_%s" % (land, horz))
+    ctx.branch("transport.chemicals.mixing_%s" % mixing)
+    ctx.branch("transport.chemicals.terrain_%s" % terrain.kind)
+    ctx.branch("transport.chemicals.state_%s" % carrier)
+    with RngRecorder(ctx.sub_seed()) as rec:
+        for u in range(nupd):
+            if u:
+                # the first transition of the first history of every option pair goes to another depth
+                kinds = ["deeper", "shallower", "split", "other_depth"] if (rep == 0 and u == 1) else TRANSPORTS
+                if slope and land != "freeze":
+                    # on the slope the tracker moves EVERY particle (a particle left where it was would be re-seeded
+                    # within its cell by `reposition`, to another depth, and clamped: not a mixing step)
+                    kinds = [k for k in kinds if k != "partly_stay"]
+                kind = kinds[rng.randrange(len(kinds))]
+                history.append(transport(cloud, terrain, kind, rs, extra_new=dict(age=0.0)))
+                ctx.branch("transport.chemicals.move_%s" % kind)
+            ibm.update_ibm(g, cloud.st, forcing)
+            del rec.log[:]
+            history.append("update %d" % (u + 1))
+            if terrain.kind == "terraces":
+                assert terrain.edge_distance(cloud.get("X")).min() > 1.0        # generator sanity, see above
+            relative_uniform_test(ctx, "chemicals_transport", cloud, terrain.depth, site, dict(params, history=list(history)))
+    ctx.branch("transport.chemicals.updates_%d" % nupd)
+
+
+def sed_transport_history(ctx, rep):
+    """sedimentation IBM, constant mixing (two reflections): statuses 1 and 2, two basins of different depth"""
+    rng = ctx.rng
+    M = ibmrun.mod("sedimentation")
+    n = ctx.n(20000, 100000)
+    dt = rng.choice([60.0, 600.0])
+    hs, hd = rng.choice([(2.5, 10.0), (10.0, 14.0), (14.0, 16.0), (40.0, 400.0)])
+    # normal increments: sigma <= hs/8, so an increment beyond one column depth (where two reflections are no longer
+    # enough) is an 8-sigma event: < 1e-15 per particle and step
+    sig = rng.choice([0.15, 0.3, 0.5]) * hs / 4
+    value = sig ** 2 / (2 * dt)
+    carrier = rng.choice(["float", "int", "bool"])
+    tform = rng.choice(["absent", "number", "dict"])
+    tc = rng.choice([0.06, 0.12, 0.32])
+    conf = dict(lifespan=1e12, vertical_mixing=value if rng.random() < 0.5 else dict(method="constant", value=value))
+    if tform != "absent":
+        conf["taucrit"] = tc if tform == "number" else dict(method="constant", value=tc)
+    s_at = math.sqrt(tc / (1000 * DRAG))
+    env = BasinEnv(hs, hd, rng.choice([0.0, 0.5 * s_at]), 2 * s_at + 0.05)
+    env.pattern = rng.choice(["calm", "calm", "strong", "patchy"])
+    rs = np.random.RandomState(ctx.sub_seed())
+    start_deep = rng.random() < 0.5
+    x = rs.uniform(2, 9, 2 * n) + (9.0 if start_deep else 0.0)
+    y = rs.uniform(2, 19, 2 * n)
+    flag = np.concatenate([np.ones(n), np.full(n, 2.0)])
+    z = np.concatenate([strat(n, 0, 1.0), strat(n, 0, 1.0)]) * env.depth(x, y)
+    # sinking cannot be switched off (0 = 'draw one'): 1e-12 m/s, see flag_uniformity
+    st = make_flag_state(carrier, dict(X=x, Y=y, Z=z, active=flag, age=np.zeros(2 * n), sink_vel=np.full(2 * n, 1e-12)), dt, 0)
+    ibm = M.IBM(dict(dt=dt, ibm=conf))
+    nupd = rng.choice([2, 3, 4])
+    history = []
+    params = dict(module="sedimentation IBM", depths=(hs, hd), value=value, dt=dt, N=n, sigma=sig, carrier=carrier,
+                  taucrit=repr(conf.get("taucrit")), current=env.pattern, history=history)
+    ctx.case(key=("transport", "sedimentation", hs, hd, value, dt, nupd, carrier, tform, tc, env.pattern, start_deep), nontrivial=True,
+             sample=params if rep == 0 else None)
+    ctx.branch("transport.sedimentation")
+    with RngRecorder(ctx.sub_seed()) as rec:
+        for u in range(nupd):
+            if u:
+                X, Y, Z = np.array(st["X"], float), np.array(st["Y"], float), np.array(st["Z"], float)
+                kind = rng.choice(["all", "all", "half", "scatter"])
+                Ho = env.depth(X, Y)
+                mv = np.ones(len(X), bool) if kind == "all" else (rs.uniform(size=len(X)) < 0.5 if kind == "half" else np.zeros(len(X), bool))
+                Xn = np.where(mv, np.where(X < 10.0, X + 9.0, X - 9.0), X)
+                if kind == "scatter":
+                    Xn = np.where(X < 10.0, rs.uniform(2, 9, len(X)), rs.uniform(11, 18, len(X)))
+                st["X"] = Xn
+                st["Z"] = (Z / Ho) * env.depth(Xn, Y)
+                history.append("tracker: %s to the other basin" % kind)
+                ctx.branch("transport.sedimentation.move_%s" % kind)
+            st.timestep = st.timestep + 1
+            ibm.update_ibm(env.grid(), st, env.forcing())
+            del rec.log[:]
+            history.append("update %d" % (u + 1))
+            for grp, f in ((slice(0, n), 1), (slice(n, 2 * n), 2)):
+                sub = Obj(get=lambda k, _g=grp: np.array(st[k])[_g])
+                relative_uniform_test(ctx, "sedimentation_transport", sub, env.depth, "ladim_plugins/sedimentation/ibm.py",
+                                      dict(params, history=list(history), group="status %d at release" % f), boundary_layer=False)
+
+
+def sandeel_transport_history(ctx, rep):
+    """sand eel larvae (the drifting stage): lower boundary = bed or max_depth, whichever is shallower"""
+    rng = ctx.rng
+    M = ibmrun.mod("sandeel")
+    N = ctx.n(20000, 100000)
+    dt = rng.choice([60.0, 600.0])
+    terrain = pick_terraces(rng, [8.0, 14.0, 40.0])
+    maxd = rng.choice([1e4, 1e4, float(np.sort(terrain.depths)[2])])      # below every bed / the middle one of the bed depths
+    col = lambda x, y: np.minimum(maxd, terrain.depth(x, y))
+    hmin = min(maxd, terrain.hmin())
+    sig = rng.choice([0.15, 0.3, 0.5]) * hmin / 4                # 8-sigma argument of sed_transport_history
+    D = sig ** 2 / (2 * dt)
+    rs = np.random.RandomState(ctx.sub_seed())
+    x0 = TERRACE_W * rng.randrange(TERRACE_N) + TERRACE_W / 2 + rs.uniform(-5.0, 5.0, N)
+    y0 = rs.uniform(5.0, 15.0, N)
+    carrier = rng.choice(["stub", "real"])
+    cloud = Cloud(carrier, dt, dict(X=x0, Y=y0, Z=strat(N, 0.0, 1.0)[rs.permutation(N)] * col(x0, y0),
+                                    stage=rs.uniform(1.0, 1.5, N), hatch_rate=rs.uniform(0.01, 1, N),
+                                    active=np.ones(N, bool) if carrier == "real" else np.ones(N)))
+    g = Obj(sample_depth=terrain.depth, grid=Obj(i0=0, j0=0))
+    f = Obj(field=lambda x, y, z, name: np.zeros_like(np.asarray(z, float)) + 7.0, forcing=Obj(temp=np.full((1, 32, 256), 7.0)))
+    ibm = M.IBM(dict(dt=dt, ibm=dict(vertical_mixing=D, max_depth=maxd)))
+    nupd = rng.choice([2, 3, 4])
+    history = []
+    params = dict(module="sandeel", dt=dt, D=D, max_depth=maxd, N=N, sigma=sig, state=carrier, terrain=terrain.describe(), history=history)
+    ctx.case(key=("transport", "sandeel", dt, D, maxd, repr(terrain.describe()), nupd, carrier), nontrivial=True, sample=params if rep == 0 else None)
+    ctx.branch("transport.sandeel.max_depth_%s" % ("below_bed" if maxd > 1e3 else "between_beds"))
+    with RngRecorder(ctx.sub_seed()) as rec:
+        for u in range(nupd):
+            if u:
+                kind = TRANSPORTS[rng.randrange(len(TRANSPORTS))]
+                history.append(transport(cloud, terrain, kind, rs, extra_new=dict(stage=1.2, hatch_rate=0.5, active=1), col=col))
+                ctx.branch("transport.sandeel.move_%s" % kind)
+            ibm.update_ibm(g, cloud.st, f)
+            del rec.log[:]
+            history.append("update %d" % (u + 1))
+            relative_uniform_test(ctx, "sandeel_transport", cloud, col, "ladim_plugins/sandeel/ibm.py", dict(params, history=list(history)))
+
+
+def eel_transport_history(ctx, rep):
+    """eel: fixed band [lo, hi] wherever the eel is; it swims horizontally itself when the moon is up, the tracker moves it too"""
+    rng = ctx.rng
+    N = ctx.n(20000, 100000)
+    dt = rng.choice([60.0, 600.0])
+    lo = rng.choice([0.0, 5.0, 100.0]); hi = lo + rng.choice([2.5, 10.0, 40.0])
+    sig = rng.choice([0.15, 0.3, 0.5]) * (hi - lo) / 4
+    D = sig ** 2 / (2 * dt)
+    moon = rng.random() < 0.5
+    rs = np.random.RandomState(ctx.sub_seed())
+    case = dict(kind="lunar_eel", dt=dt, D=D, lo=lo, hi=hi, moon=moon, x=rs.uniform(5, 15, N), y=rs.uniform(10, 18, N),
+                z=strat(N, lo, hi)[rs.permutation(N)], int_limits=(rng.random() < 0.3 and float(lo).is_integer() and float(hi).is_integer()))
+    nupd = rng.choice([2, 3, 4])
+    history = []
+    params = dict(module="lunar_eel", lo=lo, hi=hi, D=D, dt=dt, N=N, sigma=sig, moon_up=moon, history=history)
+    ctx.case(key=("transport", "eel", lo, hi, D, dt, moon, nupd), nontrivial=True, sample=params if rep == 0 else None)
+    ctx.branch("transport.lunar_eel.moon_%s" % ("up" if moon else "down"))
+    ibm_e = st_e = None
+    for u in range(nupd):
+        if u:
+            st_e["X"] = np.clip(np.array(st_e["X"], float) + rs.uniform(-2.0, 2.0, N), 2.0, 18.0)
+            st_e["Y"] = np.clip(np.array(st_e["Y"], float) + rs.uniform(-2.0, 2.0, N), 4.0, 18.0)
+            history.append("tracker: scatter")
+        res = ibmrun.eel_run(case, ctx.sub_seed(), None, None, ibm=ibm_e, state=st_e)
+        ibm_e, st_e = res["ibm"], res["state"]
+        history.append("update %d" % (u + 1))
+        uniform_test(ctx, "lunar_eel_transport", np.array(st_e["Z"], float), hi, "ladim_plugins/lunar_eel/ibm.py",
+                     dict(params, history=list(history)), lo=lo)
+
+
+def mine_transport_variance(ctx, rep):
+    """mine (one reflecting boundary): interior particles over deep terraces, the displacement the LAST update of a
+    transport history adds has variance 2*K*dt (exact chi-square bound; sinking dt*w is deterministic)"""
+    rng = ctx.rng
+    M = ibmrun.mod("mine")
+    N = ctx.n(20000, 100000)
+    dt = rng.choice([60.0, 600.0]); K = rng.choice([1e-4, 1e-3, 1e-2]); sigma = math.sqrt(2 * K * dt)
+    terrain = pick_terraces(rng, [2000.0, 3000.0])
+    land = rng.choice(["absent", "reposition", "freeze"])
+    carrier = rng.choice(["stub", "real"])
+    has_active = rng.random() < 0.7
+    conf = dict(lifespan=1e12, vertical_mixing=K, taucrit=rng.choice([1000, 5000.0]))
+    if land != "absent":
+        conf["land_collision"] = land
+    rs = np.random.RandomState(ctx.sub_seed())
+    x0 = TERRACE_W * rng.randrange(TERRACE_N) + TERRACE_W / 2 + rs.uniform(-5.0, 5.0, N)
+    y0 = rs.uniform(5.0, 15.0, N)
+    arr = dict(X=x0, Y=y0, Z=rs.uniform(0.3, 0.7, N) * terrain.depth(x0, y0), age=np.zeros(N), sink_vel=rs.choice([1e-7, 1e-6, 1e-5], size=N))
+    if has_active:
+        arr["active"] = np.ones(N, bool) if carrier == "real" else np.ones(N)
+    cloud = Cloud(carrier, dt, arr)
+    g = Obj(sample_depth=terrain.depth, lonlat=lambda x, y: (np.asarray(x, float) + 0.0, np.asarray(y, float) + 0.0))
+    f = Obj(velocity=lambda x, y, z, tstep=0: (np.zeros(len(x)), np.zeros(len(x))), forcing=Obj(wvel=lambda x, y, z, *a, **k: np.zeros(len(x))))
+    ibm = M.IBM(dict(dt=dt, ibm=conf, output_instance=[], nc_attributes={}))
+    nupd = rng.choice([2, 3, 4])
+    history = []
+    params = dict(module="mine", dt=dt, K=K, N=N, ibm=dict(conf), state=carrier, active_variable=has_active or carrier == "real", terrain=terrain.describe(), history=history)
+    ctx.case(key=("transport", "mine", dt, K, land, carrier, has_active, repr(terrain.describe()), nupd), nontrivial=True, sample=params if rep == 0 else None)
+    ctx.branch("transport.mine.land_%s" % land)
+    with RngRecorder(ctx.sub_seed()) as rec:
+        for u in range(nupd):
+            if u:
+                kind = TRANSPORTS[rng.randrange(len(TRANSPORTS))]
+                extra = dict(age=0.0, sink_vel=1e-6)
+                if has_active:
+                    extra["active"] = 1
+                history.append(transport(cloud, terrain, kind, rs, extra_new=extra))
+                ctx.branch("transport.mine.move_%s" % kind)
+            cloud.st.timestep = cloud.st.timestep + 1
+            z0 = cloud.get("Z"); w = cloud.get("sink_vel"); H = terrain.depth(cloud.get("X"), cloud.get("Y"))
+            ibm.update_ibm(g, cloud.st, f)
+            del rec.log[:]
+            history.append("update %d" % (u + 1))
+    disp = cloud.get("Z") - z0 - dt * w
+    interior = (z0 > 9 * sigma) & (z0 + dt * w < H - 9 * sigma)
+    chi2_variance_ok(ctx, "mine_transport", disp[interior], 2 * K * dt, "ladim_plugins/mine/ibm.py",
+                     dict(params, history=list(history), group="all interior particles, last update"))
+
+
+def transport_histories(ctx):
+    for rep in range(ctx.n(1, 3)):
+        for land in LAND_OPTIONS:
+            for horz in HORZ_OPTIONS:
+                chem_transport_history(ctx, land, horz, rep)
+    for rep in range(ctx.n(2, 5)):
+        sed_transport_history(ctx, rep)
+        sandeel_transport_history(ctx, rep)
+        eel_transport_history(ctx, rep)
+        mine_transport_variance(ctx, rep)
+
+
 def ladis_corr(ctx, drv):
     M = ibmrun.mod("sedimentation")
     pend = []
@@ -897,6 +1437,8 @@ def run(ctx):
     flag_histories(ctx)
     # sub-step lengths (vertdiff_dt dividing / not dividing / larger than dt; ladis intervals): after everything else, same reason
     substeps(ctx)
+    # several updates of ONE IBM instance with horizontal transport to other water depths in between (last, same reason)
+    transport_histories(ctx)
 
 
 def replay(payload):
